@@ -24,7 +24,7 @@ def strip_generics(path):
 
 class Call:
     __slots__ = ('body', 'bb', 'term', 'callee', 'orig', 'trait', 'ga', 'gc', 'args', 'dest',
-                 'to', 'loc', 'exp', 'unsafe_callee', 'fnop')
+                 'to', 'loc', 'exp', 'unsafe_callee', 'fnop', 'callee_features')
 
     def __init__(self, body, bb, term):
         self.body = body
@@ -40,6 +40,7 @@ class Call:
             self.ga = fn.get('ga', [])
             self.gc = fn.get('gc', [])
             self.unsafe_callee = bool(fn.get('unsafe'))
+            self.callee_features = list(fn.get('tf') or [])
         else:
             self.orig = None
             self.callee = None  # indirect call (fn pointer / closure value)
@@ -47,6 +48,7 @@ class Call:
             self.ga = []
             self.gc = []
             self.unsafe_callee = False
+            self.callee_features = []
         self.args = term.get('args', [])
         self.dest = term.get('dest')
         self.to = term.get('to')
@@ -92,6 +94,7 @@ class Body:
         self.argc = raw['argc']
         self.is_pub = raw.get('pub', False)
         self.is_unsafe = raw.get('unsafe', False)
+        self.target_features = list(raw.get('tf') or [])
         self.is_async = raw.get('async', False)
         self.impl_trait = raw.get('impl_trait')
         self.impl_self = raw.get('impl_self')
